@@ -20,6 +20,7 @@ Verdict(r) ==
   \o Sel(HashLawG(r.a, r.b, r.res[1], r.ha, r.hb), "hash.law")
   \o Sel(HashValG(r.a, r.ha, r.hva) /\ HashValG(r.b, r.hb, r.hvb), "hash.value")
   \o Sel((r.a.cd \/ r.b.cd) /\ (r.same \/ r.res[1] \in {"T", "F"}) /\ r.ha[1] # 2 /\ r.hb[1] # 2
+           /\ ~HasNaN(r.a.v) /\ ~HasNaN(r.b.v)          \* a NaN is re-hashed by identity of a temporary
            => (r.inset = B(r.same \/ (r.res[1] = "T" /\ r.ha = r.hb))), "set.member")
 
 Diverge(r) == \E j \in 1..6 : r.res[j] # ImplCompare(r.a, r.b, Ops[j])
